@@ -406,16 +406,22 @@ def split_rows(toks):
     """tokens of a select observation 'SA|SD ok n <svals...>' -> list of rows (token tuples), or None"""
     if len(toks) < 3 or toks[1] != 'ok':
         return None
-    n = int(toks[2]); body = toks[3:]
+    if not toks[2].isdigit():
+        return None
+    n = int(toks[2]); body = [t for t in toks[3:] if not t.startswith('RO:')]
     # split svals
     vals, i = [], 0
     while i < len(body):
         if body[i] == 'N':
             vals.append(('N',)); i += 1
-        else:
+        elif body[i] in ('I', 'R', 'T', 'B') and i + 1 < len(body):
             vals.append((body[i], body[i + 1])); i += 2
+        else:
+            return None   # not a list of SQLite values (trailing tokens of another kind)
     if n == 0:
         return []
+    if len(vals) % n:
+        return None
     w = len(vals) // n
     return [tuple(vals[r * w:(r + 1) * w]) for r in range(n)]
 
@@ -618,6 +624,7 @@ def sql_ops_full(case):
         elif k == 'sel':
             j = i + 3; n = int(t[j]); j += 1
             for _ in range(n): j += 1 + len(sval(j + 1))
+            limit = int(t[j])
             i = j + 1
         elif k in ('begin', 'commit', 'rollback'): i = names(i + 2)
         elif k == 'refresh': i = names(names(i + 2))
@@ -626,7 +633,7 @@ def sql_ops_full(case):
         elif k == 'vacuum': i = names(names(names(i + 3)))
         elif k == 'changes': i = names(names(i + 2))
         else: raise ValueError('sql_ops_full: ' + k)
-        out.append(dict(kind=k, conn=c, key=key, skipped=sk))
+        out.append(dict(kind=k, conn=c, key=key, skipped=sk, limit=limit if k == 'sel' else 0))
     return out
 
 def rolled_back_insert_excuse(case, j, got, want):
@@ -643,6 +650,8 @@ def rolled_back_insert_excuse(case, j, got, want):
         return False
     got = [x for x in got if not x.startswith('RO:')]
     want = [x for x in want if not x.startswith('RO:')]
+    # (finding F-C08-1 may be in the same rows: empty TEXT reads back as NULL)
+    got, want = mask_empty_text(got), mask_empty_text(want)
     ops = sql_ops_full(case)
     if not (1 <= j <= len(ops)):
         return False
@@ -668,7 +677,7 @@ def rolled_back_insert_excuse(case, j, got, want):
             touched[c].add(q['key'])
         prev = q
     r = R.get(o['conn'], set())
-    if o['kind'] in ('sel', 'vacuum'):
+    if o['kind'] in ('sel', 'selo', 'vacuum'):
         # (the connection's next commit persists the row: any reader may then see it)
         r = set().union(*R.values()) if R else set()
     if not r:
@@ -677,6 +686,8 @@ def rolled_back_insert_excuse(case, j, got, want):
         return o['key'] in r
     if o['kind'] == 'commit':
         return bool(touched.get(o['conn'], set()) & r)
+    if o['kind'] == 'selo':
+        o = dict(o, kind='sel')
     if o['kind'] == 'vacuum' and 'VB' in got and 'VA' in got and 'VB' in want and 'VA' in want:
         # the rows the vacuuming connection sees before its vacuum: as for a SELECT
         got = ['SA'] + got[got.index('VB') + 1:got.index('VA')]
@@ -696,7 +707,9 @@ def rolled_back_insert_excuse(case, j, got, want):
             return False
         extra = set(g) - set(w)
         keytok = lambda k: tuple(k.split()) if isinstance(k, str) else tuple(k)
-        return bool(extra) and all(keytok(k) in r for k in extra) and all(g[k] == w[k] for k in w if k in g) and set(w) <= set(g)
+        # (with a LIMIT the extra rows push expected rows out of the window)
+        complete = set(w) <= set(g) or o.get('limit', 0) > 0
+        return bool(extra) and all(keytok(k) in r for k in extra) and all(g[k] == w[k] for k in w if k in g) and complete
     return False
 
 def parse_sql_ops(case):
